@@ -30,7 +30,7 @@ RULE = ('tables from tables.rand_spec (1..4 x 1..5, mostly non-square, asymmetri
         'zeros / reversed indices in CSR or CSC; hand-made 0 x n and n x 0 tables) x one call of '
         '{sum, min, max, nonzero, nonzero_counts, reduce(+,-,max), get_table_density, nnz, compute_counts_per_sample_stats, '
         '_summarize_table in its 4 modes, table-ids, head, to_dataframe dense/sparse, metadata_to_dataframe, _export_metadata} '
-        'x every axis / flag; thorough adds the same CLI commands through click CliRunner on a written file; '
+        'x every axis / flag; plus, in both tiers, the four commands through the real click group in process (every forwarded option varied); '
         'non-trivial = at least 2x2, non-square or asymmetric matrix with zero and non-zero cells; distinct by case hash')
 TRUSTED = ['hand-written model coq/Model/Summary.v tied to biom/table.py, biom/util.py and biom/cli/*.py by this correspondence run',
            'scipy conversions as Sparse.swap_segs (segment view); Table.filter inside head is property C08',
@@ -253,13 +253,31 @@ def _write(t, d):
     return p
 
 
+class _Res:
+    def __init__(self, output, exception):
+        self.output, self.exception = output, exception
+        self.exit_code = 0 if exception is None else 1
+
+
 def _invoke(args):
-    import biom.cli as bc
-    from click.testing import CliRunner
-    # the command group reopens fd 1 when its context closes; under CliRunner that closes the real stdout
-    bc._terribly_handle_brokenpipeerror = lambda: None
-    r = CliRunner().invoke(bc.cli, args)
-    return r
+    """the real `biom` click group, in process: biom.cli.cli.main(args, standalone_mode=False).  The group's close
+    callback reopens fd 1 and the wrapper it leaves behind closes it when collected: the standard descriptors are
+    saved and restored around the call; what the command echoes is captured through sys.stdout."""
+    from biom.cli import cli
+    buf = io.StringIO()
+    err = None
+    saved = [os.dup(k) for k in (0, 1, 2)]
+    try:
+        try:
+            with contextlib.redirect_stdout(buf):
+                cli.main(args=list(args), standalone_mode=False)
+        except BaseException as e:          # click may raise SystemExit / Abort / UsageError
+            err = e if isinstance(e, Exception) else RuntimeError(repr(e))
+    finally:
+        for k, fd in enumerate(saved):
+            os.dup2(fd, k)
+            os.close(fd)
+    return _Res(buf.getvalue(), err)
 
 
 def _run_impl(c):
@@ -342,29 +360,46 @@ def _run_impl(c):
     if k.startswith('cli_'):
         with tempfile.TemporaryDirectory() as d:
             p = _write(t, d)
+            out = os.path.join(d, 'out.txt')
             if k == 'cli_report':
-                r = _invoke(['summarize-table', '-i', p] + (['--qualitative'] if c['q'] else []) + (['--observations'] if c['o'] else []))
+                r = _invoke(['summarize-table', '-i', p] + (['--qualitative'] if c['q'] else [])
+                            + (['--observations'] if c['o'] else []) + (['-o', out] if c.get('out') else []))
                 if r.exit_code != 0:
                     return _err(r.exception)
-                return parse_report(r.output.rstrip('\n'), c['q'], c['o'])
+                text = open(out).read() if c.get('out') else r.output.rstrip('\n')
+                if c.get('out') and r.output.strip():
+                    return ['crash', 'stdout', 'summarize-table -o also printed %r' % r.output[:80]]
+                return parse_report(text, c['q'], c['o'])
             if k == 'cli_ids':
                 r = _invoke(['table-ids', '-i', p] + (['--observations'] if c['obs'] else []))
                 if r.exit_code != 0:
                     return _err(r.exception)
                 return r.output.split('\n')[:-1]
             if k == 'cli_head':
-                r = _invoke(['head', '-i', p, '-n', str(c['n']), '-m', str(c['m'])])
+                args = ['head', '-i', p]
+                if c['n'] != 5 or not c.get('defaults'):
+                    args += [c.get('nflag', '-n'), str(c['n'])]
+                if c['m'] != 5 or not c.get('defaults'):
+                    args += [c.get('mflag', '-m'), str(c['m'])]
+                r = _invoke(args + (['-o', out] if c.get('out') else []))
                 if r.exit_code != 0:
                     return _err(r.exception)
-                return ['ok'] + parse_tsv_table(r.output)
+                return ['ok'] + parse_tsv_table(open(out).read() if c.get('out') else r.output)
             if k == 'cli_export':
-                out = os.path.join(d, 'md.tsv')
-                r = _invoke(['export-metadata', '-i', p] + (['-m', out] if c['axis'] == 'sample' else ['--observation-metadata-fp', out]))
+                outs = {'sample': os.path.join(d, 'smd.tsv'), 'observation': os.path.join(d, 'omd.tsv')}
+                axes = ['sample', 'observation'] if c.get('both') else [c['axis']]
+                args = ['export-metadata', '-i', p]
+                for ax in axes:
+                    args += [c.get('sflag', '-m') if ax == 'sample' else '--observation-metadata-fp', outs[ax]]
+                r = _invoke(args)
                 if r.exit_code != 0:
                     return _err(r.exception)
-                if not os.path.exists(out):
+                other = 'observation' if c['axis'] == 'sample' else 'sample'
+                if not c.get('both') and os.path.exists(outs[other]):
+                    return ['crash', 'file', 'export-metadata wrote the %s file that was not asked for' % other]
+                if not os.path.exists(outs[c['axis']]):
                     return ['nomd', 'does not contain %s metadata' % c['axis'] in r.output]
-                return parse_md_tsv(open(out, newline='').read())
+                return parse_md_tsv(open(outs[c['axis']], newline='').read())
     raise ValueError(k)
 
 
@@ -778,14 +813,10 @@ def gen_case(rng, kind=None):
     base = k[4:] if k.startswith('cli_') else k
     if base in ('mddf', 'export'):
         spec = gen_spec(rng, mdkind=rng.choice(['text', 'num', 'tax', 'group', 'obs', 'samp', 'order', 'sets', 'none']))
-    elif rng.random() < 0.04 and not k.startswith('cli_'):
+    elif rng.random() < 0.04:
         spec = empty_spec(rng)
     else:
         spec = gen_spec(rng, mdkind=rng.choice([None, 'none']) if base == 'report' else 'none' if rng.random() < 0.7 else None)
-    if base in ('head', 'ids') and not (spec['sids'] and spec['oids']):
-        # the command reads a file; to_json of a table without samples is not loadable and one without
-        # observations loses its sample ids (property C02)
-        spec = gen_spec(rng, mdkind='none')
     c = {'kind': k, 'spec': spec}
     r, n = len(spec['oids']), len(spec['sids'])
     x = rng.random()
@@ -821,16 +852,32 @@ def gen_case(rng, kind=None):
         c['m'] = rng.choice([1, 2, 2, 3, 5, 7, 0])
     elif base in ('mddf', 'export'):
         c['axis'] = rng.choice(['sample', 'observation'])
+    if k.startswith('cli_'):
+        # every option the click wrappers forward, in its short and long spelling
+        if k in ('cli_report', 'cli_head'):
+            c['out'] = rng.random() < 0.4
+        if k == 'cli_head':
+            c['nflag'] = rng.choice(['-n', '--n-obs'])
+            c['mflag'] = rng.choice(['-m', '--n-samp'])
+            if rng.random() < 0.25:          # leave an option out: the default (5) must apply
+                c['defaults'] = True
+                if rng.random() < 0.5:
+                    c['n'] = 5
+                else:
+                    c['m'] = 5
+        if k == 'cli_export':
+            c['both'] = rng.random() < 0.4
+            c['sflag'] = rng.choice(['-m', '--sample-metadata-fp'])
     return c
 
 
 def gen(rng, tier):
-    n = 5000 if tier == 'quick' else 50000
+    n = 4000 if tier == 'quick' else 50000
     for _ in range(n):
         yield gen_case(rng)
-    if tier == 'thorough':
-        for _ in range(3000):
-            yield gen_case(rng, rng.choice(['cli_report', 'cli_report', 'cli_ids', 'cli_head', 'cli_export']))
+    # the real commands through the click group (wrappers included), in both tiers
+    for _ in range(800 if tier == 'quick' else 4000):
+        yield gen_case(rng, rng.choice(['cli_report', 'cli_report', 'cli_ids', 'cli_head', 'cli_head', 'cli_export', 'cli_export']))
 
 
 def nontrivial(c):
@@ -848,7 +895,7 @@ def classify(c):
             'dims:%dx%d' % (len(s['oids']), len(s['sids'])), 'inject:' + str(c.get('inject')),
             'pre:' + (c['pre'][0][0] if c.get('pre') else 'none'),
             'md:' + ('both' if s.get('omd') and s.get('smd') else 'obs' if s.get('omd') else 'samp' if s.get('smd') else 'none')]
-    for f in ('axis', 'binary', 'f', 'q', 'o'):
+    for f in ('axis', 'binary', 'f', 'q', 'o', 'out', 'both', 'defaults', 'nflag', 'mflag', 'sflag'):
         if f in c:
             tags.append('%s:%s:%s' % (c['kind'], f, c[f]))
     try:
